@@ -5,6 +5,7 @@ mod c03;
 mod c05;
 mod c06;
 mod c07;
+mod c08;
 mod c09;
 mod c10;
 mod c11;
@@ -16,6 +17,7 @@ mod c16;
 mod c17;
 mod c18;
 mod c19;
+mod c20;
 mod common;
 mod selftest;
 
@@ -55,6 +57,7 @@ fn main() {
             c06::run(&tier)
         }
         "C07" => c07::run(&tier),
+        "C08" => c08::run(&tier),
         "C09" => {
             let ctr = std::sync::Arc::new(c09::Counters::default());
             let ck = c09::C09 { ctr: ctr.clone() };
@@ -96,6 +99,7 @@ fn main() {
         "C16" => c16::run(&tier),
         "C17" => c17::run(&tier),
         "C19" => c19::run(&tier),
+        "C20" => explorer(prop, &tier, replay, c20::specs(&tier), &c20::C20),
         "C18" => match replay {
             Some(p) => common::replay_explorer(prop, &p, c18::specs(&tier), &c18::C18),
             None => {
